@@ -1267,7 +1267,10 @@ func (s *Store) streamBackupDBSnapshot(ctx context.Context, db *DB) (newPos ltx.
 	v.Store(ltx.Pos{})
 
 	// Run snapshot through a goroutine so we can pipe it to the backup writer.
+	// Close the read side on return so that the snapshot does not block while
+	// holding its locks if the backup client stops reading early.
 	pr, pw := io.Pipe()
+	defer func() { _ = pr.Close() }()
 	go func() {
 		header, trailer, err := db.WriteSnapshotTo(ctx, pw)
 		v.Store(ltx.NewPos(header.MaxTXID, trailer.PostApplyChecksum))
